@@ -153,6 +153,21 @@ def t_crlf(rnd, files):
     return out, "noise"
 
 
+def t_oneline(rnd, files):
+    """line breaks are whitespace: every function body is put on ONE line (several statements, several emits per line)"""
+    import re
+    out = {}
+    for p, items in files.items():
+        new = []
+        for it in items:
+            src = it.src
+            if it.kind in ("event", "command"):
+                src = re.sub(r"\{\n((?:    .*\n)+)\}", lambda m: "{ " + " ".join(l.strip() for l in m.group(1).splitlines()) + " }", src)
+            new.append(Item(it.kind, it.name, src))
+        out[p] = new
+    return out, "noise"
+
+
 def t_decoys(rnd, files):
     """non-command functions and non-serde items — must not change anything"""
     out = {p: list(items) for p, items in files.items()}
@@ -228,4 +243,4 @@ def t_rename_files(rnd, files):
     return out, "order"
 
 
-TRANSFORMS = [t_noise, t_decoys, t_reorder, t_move, t_split, t_merge, t_rename_files, t_crlf]
+TRANSFORMS = [t_noise, t_decoys, t_reorder, t_move, t_split, t_merge, t_rename_files, t_crlf, t_oneline]
